@@ -53,7 +53,7 @@ var plans = map[string]plan{
 	},
 	"C20": {
 		Quick:    []stage{enumStage(), rapidStage(1_500)},
-		Thorough: []stage{enumStage(), rapidStage(120_000), fuzzStage("FuzzC20", 240), fuzzStage("FuzzBytes", 300)},
+		Thorough: []stage{enumStage(), rapidStage(30_000), fuzzStage("FuzzC20", 240), fuzzStage("FuzzBytes", 300)},
 		Rule:     "enumerated: for every component kind and path items, every reference position the document meta-model allows inside such an object down to 4 kinds (5 in the thorough tier), a skeleton document whose position refers back to the enclosing component (self, with an alias component resolved before or after it, through a component of the expected kind that refers back, to the container just above the position, or with an operation referring to the component): reference cycles of the right and of the wrong kind everywhere; and every position of the all-kinds base document and of six repository documents holding in turn null, a boolean, a number, a string, [], {} and an array wrapping the original (entries of the wrong JSON type). generated: cases are (in-memory file tree whose root document is a docgen / repository-testdata / adversarial-reference-graph seed after 0-4 structure-level mutations (retype, delete, replace by $ref to a random / self / ancestor / hostile target, swap, copy, redirect a $ref, deep nesting) and optional token-level damage, as JSON or YAML; entry point; external-reference switch; validation option bits). On success the document is validated, marshalled to JSON and YAML, internalised, marshalled and validated again. non-trivial = the root bytes mention openapi, paths and at least one $ref (the resolver is reached). distinct = FNV-64a of the canonical case JSON.",
 		Assume: []string{
 			"oracle: every call returns normally; non-termination is a 20 s watchdog, re-run alone with a 60 s limit before it is reported",
@@ -62,7 +62,7 @@ var plans = map[string]plan{
 	},
 	"C03": {
 		Quick:    []stage{rapidStage(1_000)},
-		Thorough: []stage{rapidStage(100_000)},
+		Thorough: []stage{rapidStage(15_000)},
 		Rule:     "cases are OpenAPI 3.0.3 (2/3) and Swagger 2.0 (1/3) documents drawn from a meta-model of every object kind: any subset of optional fields, YAML-hostile strings, x- extensions with arbitrary JSON, unknown fields, references to components; 1 in 5 is de-normalised (redundant defaults, siblings next to $ref). Checked: R1 J(L(D)) = D (normal form), R2 J(L(J(L(D)))) = J(L(D)) and the same through YAML output, R3 YAML input = JSON input. non-trivial = the document populates >= 12 distinct (kind, field) pairs and carries at least one extension. distinct = FNV-64a of the canonical case JSON. coverage.extra lists how often each (kind, field) pair was populated.",
 		Assume: []string{
 			"equality is equality of parsed JSON values with numeric equality",
